@@ -40,18 +40,20 @@ package tchannel
 // (ASSUMED at the entry points that create connections -- Connect, the accept
 // loop: NewChannel installs a default for both, and neither is reassigned.)
 //@ func (ch *Channel) newConnection(baseCtx context.Context, conn net.Conn, initialID uint32, outboundHP string, remotePeer PeerInfo, remotePeerAddress peerAddressComponents, events connectionEvents) (c *Connection)
-//@   requires ch.statsReporter != nil && ch.connContext != nil
+//@   requires ch.statsReporter != nil && ch.connContext != nil && ch.connectionOptions.ChecksumType < 4
 //@   property C13
 //@ func (ch *Channel) inboundHandshake(ctx context.Context, c net.Conn, events connectionEvents) (conn *Connection, err error)
-//@   requires ch.statsReporter != nil && ch.connContext != nil
+//@   requires ch.statsReporter != nil && ch.connContext != nil && ch.connectionOptions.ChecksumType < 4
 //@   property C13
 //@ func (ch *Channel) outboundHandshake(ctx context.Context, c net.Conn, outboundHP string, events connectionEvents) (conn *Connection, err error)
-//@   requires ch.statsReporter != nil && ch.connContext != nil
+//@   requires ch.statsReporter != nil && ch.connContext != nil && ch.connectionOptions.ChecksumType < 4
 //@   property C13
 //@ func (c *Connection) callOnActive()
 //@   label health-check-handles-are-set-together
 //@   ensures c.healthCheckDone != nil ==> c.healthCheckCtx != nil && c.healthCheckQuit != nil
 //@   property C19
+// (ASSUMED at the same entry points: the configured checksum type is one of the four the protocol defines)
+//@ structinv (c *Connection) established newConnection : c.opts.ChecksumType < 4
 //@ structinv (c *Connection) established newConnection : c.statsReporter != nil
 //@ structinv (c *Connection) established newConnection : c.baseContext != nil
 //@ structinv (c *Connection) established newConnection : c.timeNow != nil
